@@ -54,6 +54,10 @@ ASSUMPTIONS = [
     "express the adjoint otherwise); no repeated index inside one operand",
     "inverse modes are compared with tolerance scaled by max|A^-1|; SandwichOperators with cond > 1e6 are discarded",
     "JaxLinearOperator with a real domain_dtype is only applied to real fields",
+    "regions of recorded findings (known_findings.json, status 'known', exclude_tag) are left out by construction "
+    "while recorded: scipy.sparse / int `spaces` / multi-axis-space spaces=None for MatrixProductOperator, "
+    "length-1 axes for RegriddingOperator, multi-space domains and total volume != 1 for FuncConvolutionOperator, "
+    "and the adjoint relation of FuncConvolutionOperator on HPSpace/GLSpace; each has a probe in KNOWN_PROBES",
 ]
 
 _NT = "non-trivial = "
@@ -129,3 +133,102 @@ SUBS = [
     Sub("jax_linear", M.jax_check, strategy=M.jax_recipes, quick=32, thorough=400, shards=1, jax=True,
         rule=_NT + "complex, MultiDomain or multi-axis domain (JaxLinearOperator with domain_dtype / func_T)"),
 ]
+
+
+# ------------------------------------------------------------------ recorded (unrepaired) findings
+# known_findings.json entries with status "known" carry an exclude_tag (the generators in the helper modules
+# leave that region out by construction while the tag is recorded: see C.KNOWN) and a probe that re-executes
+# the one specific failing input; the runner prints KNOWN-FINDING while the probe still fails.
+from vlib import findings  # noqa: E402
+
+KNOWN = findings.known_tags("C02")
+
+
+def _probe(fn):
+    def run():
+        try:
+            return fn()
+        except Exception as e:  # noqa: BLE001  (a probe never raises)
+            return f"probe could not run: {type(e).__name__}: {str(e)[:80]}"
+    return run
+
+
+def _raises(call):
+    """short description of the exception raised by call(), or None"""
+    try:
+        call()
+    except Exception as e:  # noqa: BLE001
+        return f"{type(e).__name__}: {str(e).splitlines()[0][:70] if str(e) else ''}"
+    return None
+
+
+def _probe_mpo_sparse():
+    import scipy.sparse as sp
+    import nifty.cl as ift
+    d = ift.RGSpace(3)
+    return _raises(lambda: ift.MatrixProductOperator(d, sp.identity(3, format="csr"))(ift.full(d, 1.)))
+
+
+def _probe_mpo_int_spaces():
+    import numpy as np
+    import nifty.cl as ift
+    d = ift.DomainTuple.make((ift.RGSpace(2), ift.RGSpace(3)))
+    return _raises(lambda: ift.MatrixProductOperator(d, np.eye(3), spaces=1)(ift.full(d, 1.)))
+
+
+def _probe_mpo_multiaxis_none():
+    import numpy as np
+    import nifty.cl as ift
+    d = ift.RGSpace((2, 2))
+    m = np.diag([1., 2., 3., 4.]).reshape(2, 2, 2, 2)
+    x = np.array([[1., 2.], [3., 4.]])
+    try:
+        y = ift.MatrixProductOperator(d, m)(ift.makeField(d, x)).asnumpy()
+    except Exception as e:  # noqa: BLE001
+        return f"{type(e).__name__}: {str(e).splitlines()[0][:70]}"
+    want = np.array([[1., 4.], [9., 16.]])
+    return None if y.shape == want.shape and np.allclose(y, want) else f"wrong result {y.tolist()}"
+
+
+def _probe_regrid_len1():
+    import nifty.cl as ift
+    op = ift.RegriddingOperator(ift.RGSpace((1, 4)), (1, 2))
+    return _raises(lambda: op.adjoint_times(ift.full(op.target, 1.)))
+
+
+def _probe_fconv_multispace():
+    import numpy as np
+    import nifty.cl as ift
+    return _raises(lambda: ift.FuncConvolutionOperator((ift.RGSpace(4), ift.RGSpace(2)),
+                                                       lambda r: np.exp(-r * r), space=0))
+
+
+def _probe_fconv_volume():
+    import numpy as np
+    import nifty.cl as ift
+    d = ift.RGSpace(3, distances=1.)         # total volume 3
+    op = ift.FuncConvolutionOperator(d, lambda r: 1. * (r == 0))      # delta kernel: identity expected
+    y = op(ift.makeField(d, np.array([1., 0., 0.]))).asnumpy()
+    return None if np.allclose(y, [1., 0., 0.], atol=1e-12) else \
+        f"delta kernel maps [1,0,0] to {np.round(y, 4).tolist()}"
+
+
+def _probe_fconv_sphere_adjoint():
+    import numpy as np
+    import nifty.cl as ift
+    op = ift.FuncConvolutionOperator(ift.HPSpace(1), lambda t: np.exp(-t * t))
+    e = lambda i: ift.makeField(op.domain, np.eye(12)[i])   # noqa: E731
+    a = float(e(0).s_vdot(op(e(4))))
+    b = float(op.adjoint_times(e(0)).s_vdot(e(4)))
+    return None if abs(a - b) <= 1e-12 else f"<e0,A e4>={a:.6f} but <A^H e0,e4>={b:.6f}"
+
+
+KNOWN_PROBES = {
+    "probe_mpo_sparse": _probe(_probe_mpo_sparse),
+    "probe_mpo_int_spaces": _probe(_probe_mpo_int_spaces),
+    "probe_mpo_multiaxis_none": _probe(_probe_mpo_multiaxis_none),
+    "probe_regrid_len1": _probe(_probe_regrid_len1),
+    "probe_fconv_multispace": _probe(_probe_fconv_multispace),
+    "probe_fconv_volume": _probe(_probe_fconv_volume),
+    "probe_fconv_sphere_adjoint": _probe(_probe_fconv_sphere_adjoint),
+}
